@@ -729,4 +729,80 @@ theorem minVote_orderBlind : OrderBlind minVote := by
     simp only [List.headD_cons]
     exact this.symm
 
+/-! ### `WF` of the tree of the run; the marker stage works on the level loop's run tree -/
+
+/-- a successful `drop_level` of a `WF` tree returns a `WF` tree (C10 `drop_preserves`,
+by level name) -/
+theorem WF_dropLevel {t t' : RawTree} {l : Level} (w : WF t) (h : t.dropLevel l = .ok t') :
+    WF t' := by
+  obtain ⟨hm, _⟩ := LevelLoop.dropLevel_hierarchy h
+  have hnl := dropLevel_not_leaf h
+  obtain ⟨i, hi, rfl⟩ := List.getElem_of_mem hm
+  have hi1 : i + 1 < t.hierarchy.length := by
+    rcases Nat.lt_or_ge (i+1) t.hierarchy.length with h1 | h1
+    · exact h1
+    · exfalso; apply hnl
+      rw [List.getLast?_eq_getElem?, show t.hierarchy.length - 1 = i by omega]
+      exact List.getElem?_eq_getElem hi
+  obtain ⟨t'', h'', _, w''⟩ := dropLevel_eq_ok w (i := i) (allowLeaf := false) hi (by omega)
+    (Or.inr hi1)
+  rw [h] at h''
+  cases h''
+  exact w''
+
+/-- the tree of the run (`drop_level` / `flatten`) of a `WF` stored tree is `WF` -/
+theorem WF_runTree {t0 t : RawTree} {cfg : LevelLoop.Config} (w : WF t0)
+    (hrun : LevelLoop.runTree t0 cfg = .ok t) : WF t := by
+  have hflat : ∀ t1, WF t1 → WF (if cfg.flatten then t1.flatten else t1) := by
+    intro t1 w1; split
+    · exact flatten_wf w1
+    · exact w1
+  unfold LevelLoop.runTree at hrun
+  cases hd : cfg.dropLevel with
+  | none =>
+    simp only [hd, Except.ok.injEq] at hrun
+    subst hrun; exact hflat t0 w
+  | some l =>
+    simp only [hd] at hrun
+    by_cases hc : t0.hierarchy.contains l = true
+    · simp only [hc, if_true] at hrun
+      cases hdl : t0.dropLevel l with
+      | error e => simp only [hdl] at hrun; cases hrun
+      | ok t1 =>
+        simp only [hdl, Except.ok.injEq] at hrun
+        subst hrun
+        exact hflat t1 (WF_dropLevel w hdl)
+    · simp only [hc, Bool.false_eq_true, if_false, Except.ok.injEq] at hrun
+      subst hrun; exact hflat t0 w
+
+/-- **the marker stage and the level loop work on the same tree**: the marker
+stage with `drop_level` / `flatten` is the plain marker stage on the level
+loop's `runTree` (with the flattened table when flattening) -/
+theorem stage_eq_stage_runTree {t0 t : RawTree} {cfg : LevelLoop.Config}
+    (hrun : LevelLoop.runTree t0 cfg = .ok t) (lk : Markers.Lookup) (R Q : List Markers.Gene)
+    (m : Nat) :
+    Markers.stage t0 lk R Q m cfg.dropLevel cfg.flatten =
+      Markers.stage t (if cfg.flatten then Markers.flattenLookup lk else lk) R Q m none false := by
+  unfold LevelLoop.runTree at hrun
+  cases hd : cfg.dropLevel with
+  | none =>
+    simp only [hd, Except.ok.injEq] at hrun
+    subst hrun
+    cases hf : cfg.flatten <;> simp [Markers.stage]
+  | some l =>
+    simp only [hd] at hrun
+    by_cases hc : t0.hierarchy.contains l = true
+    · simp only [hc, if_true] at hrun
+      cases hdl : t0.dropLevel l with
+      | error e => simp only [hdl] at hrun; cases hrun
+      | ok t1 =>
+        simp only [hdl, Except.ok.injEq] at hrun
+        subst hrun
+        have hc' : l ∈ t0.hierarchy := by simpa using hc
+        cases hf : cfg.flatten <;> simp [Markers.stage, hc', hdl]
+    · simp only [hc, Bool.false_eq_true, if_false, Except.ok.injEq] at hrun
+      subst hrun
+      have hc' : l ∉ t0.hierarchy := by simpa using hc
+      cases hf : cfg.flatten <;> simp [Markers.stage, hc']
+
 end CTM.Bridge
